@@ -8,20 +8,19 @@ again gives the identical text. Names and string literals appear in canonical
 single-quoted form, and parentheses are kept wherever dropping them would change
 the grouping of '!', '&&', '||' or a comparison."
 
-Proved here (`C12_partial`): for the *structural* fragment (every filter-free
-query: any mix of child/descendant segments and name, index, slice, wildcard
-selectors, names over all characters, all integers) the printed text is derived
-by the RFC grammar (the independent recogniser `Spec.parseQuery` accepts it) and
-denotes the same query, the only difference being that an omitted slice step is
-written out as `1` (`normStep`), which selects the same nodes (`C07`); printing is
-idempotent on that normal form.  Names and string literals are in canonical
-single-quoted form for every string (`C08_canonical`).  `C12_filter_partial` is the
-same round trip for filter expressions (precedence and parentheses) with
-filter-free embedded queries and string/boolean/null literals.  Not covered by a
-theorem: number literals (`repr(float)`/`float()` are CPython runtime), filters
-nested inside filters, and reparsing with the implementation's own Pratt parser —
-all decided by the oracle search (reparse with both the real parser and
-`Spec.Grammar`, AST equality, fixpoint).
+Proved here, at full strength on the model — `C12`: for EVERY environment whose index
+range contains 1 (the printer writes an omitted slice step as `1`; `C12_needs_range`
+shows the condition cannot be dropped — the default range qualifies) and every string
+`s` that compiles to `q`: the text `str(q)` compiles, in the same environment, to `q`
+with omitted slice steps written out at every nesting level (`normSegs`), and printing
+that again gives the identical text.  With `C04` the printed text is a valid RFC 9535
+query; `select_normSegs` (pending) is the lemma that writing out the step selects the same
+nodes.  One hypothesis stands for CPython behaviour that is modelled, not proved:
+`FloatRoundTrips` for the float literals of `q` (`repr(float)` then `float()` gives the
+same double; tested by the check on every literal it generates; infinities — literals
+like `1e400`, outside the property's exactly-representable range — do not round-trip).
+`C12_partial` (structural fragment against `Spec.Grammar` directly), `C12_filter_partial`,
+`C12_fixpoint`, `C12_quoting` are the earlier, narrower results and are kept.
 -/
 import JPV.Impl.Serialize
 import JPV.Spec.Grammar
@@ -29,8 +28,27 @@ import JPV.Spec.Typing
 import JPV.Props.C08
 import JPV.Proofs.Printer
 import JPV.Proofs.PrinterFilter
+import JPV.Proofs.PrintCompile
+import JPV.Proofs.Pc.NeedsRange
 namespace JPV.Props
 open JPV
+
+/-- str() of any compiled query compiles again to the same query (omitted slice steps written out) and is a fixpoint -/
+theorem C12 (env : Impl.Env) (s : Str) (q : Query)
+    (h : Impl.compile env s = .ok q)
+    (h1 : env.minIdx ≤ 1 ∧ 1 ≤ env.maxIdx)
+    (hf : ∀ x ∈ Proofs.floatsSegs q, Proofs.FloatRoundTrips x) :
+    Impl.compile env (Impl.strQuery q) = .ok (Proofs.normSegs q) ∧
+    Impl.strQuery (Proofs.normSegs q) = Impl.strQuery q :=
+  Proofs.print_compile_roundtrip env s q h h1 hf
+
+/-- the range condition is needed: with an index range that excludes 1, `$[5:6]` prints as `$[5:6:1]`, which that
+environment rejects -/
+theorem C12_needs_range :
+    ¬ ∀ (env : Impl.Env) (s : Str) (q : Query), Impl.compile env s = .ok q →
+      Impl.compile env (Impl.strQuery q) = .ok (Proofs.normSegs q) := by
+  intro h
+  exact Proofs.Pc.roundtrip_needs_range (fun env s q hc => by rw [← Proofs.normSegs_eq]; exact h env s q hc)
 
 theorem C12_partial (q : Query) (hff : Spec.filterFree q = true) (hne : Proofs.nonEmptySegs q = true) :
     ∃ c, Spec.parseQuery (Impl.strQuery q) = .valid c ∧ Spec.abstractSegs c = Proofs.normStep q :=
